@@ -104,6 +104,8 @@ def mk_stock(case):
     dims = mk_dims(case["grid"], case["extra"])
     shp = shape_of(case["grid"], case["extra"])
     drv = np.array([float(v) for v in case["driver"]]).reshape(shp)
+    if case.get("int_dtype") and np.all(drv == np.round(drv)):
+        drv = drv.astype(np.int64)        # whole-number counts handed over as an integer array
     k = case["cls"]
     if k == "simple":
         out = np.array([float(v) for v in case["outflow"]]).reshape(shp)
